@@ -596,6 +596,17 @@ def jobs_C11(tier, seed):
     s = scn([T_up('seekable', 7), T_up('seekable', 6)], cfg(max_in_memory_upload_chunks=1, max_submission_concurrency=2,
                                                           max_request_concurrency=2, multipart_threshold=2), seed=seed)
     jobs.append(job('up two seekable streams chunks=1 subc=2', s, k, want, max_execs=40000 if tier == 'quick' else 600000))
+    # buffers that exist, also after the upload failed or was cancelled: liveness of the chunks handed
+    # to the library is observed directly (reference counts) at every later read of the stream
+    for src in ('nonseekable', 'seekable'):
+        base = dict(seed=seed, track_buffers=True)
+        C1 = cfg(max_in_memory_upload_chunks=1, max_submission_concurrency=1, max_request_concurrency=1, multipart_threshold=2)
+        s = scn([T_up(src, 13)], dict(C1), **base)
+        jobs.append(job(f'alive plain {src}', s, {'sched': 0}, want, max_execs=2000))
+        s = scn([T_up(src, 13)], dict(C1), faults={'sites': ['s3:UploadPart', 's3:CreateMultipartUpload']}, **base)
+        jobs.append(job(f'alive fault {src}', s, {'sched': 0, 'env': 1}, want, max_execs=5000))
+        s = scn([T_up(src, 13)], dict(C1), inject=[{'kind': 'cancel', 'target': 0}], **base)
+        jobs.append(job(f'alive cancel {src}', s, {'inject': 1, 'sched': 0}, want, max_execs=5000))
     for chunks in (1, 2):
         trs = [T_up('nonseekable', 3) for _ in range(4)]
         s = scn(trs, cfg(max_in_memory_upload_chunks=chunks, max_submission_concurrency=1, max_request_concurrency=1,
